@@ -263,16 +263,16 @@ Definition conflicts (f : tstate) (k : path) : bool :=
 (** the history never stores a path that is a proper prefix of another one.
     The cache applies the updates of a notification before its deletes, so the
     check does the same. *)
+Fixpoint pf_keys (f : tstate) (ks : list path) : bool :=
+  match ks with
+  | [] => true
+  | k :: ks' => negb (conflicts f k) && pf_keys ((k, TVBool true) :: f) ks'
+  end.
+
 Fixpoint prefix_free_from (f : tstate) (s : list item) : bool :=
   match s with
   | [] => true
-  | it :: s' =>
-      (fix go (f : tstate) (ks : list path) : bool :=
-         match ks with
-         | [] => true
-         | k :: ks' => negb (conflicts f k) && go ((k, TVBool true) :: f) ks'
-         end) f (upd_keys it)
-      && prefix_free_from (replay_step f it) s'
+  | it :: s' => pf_keys f (upd_keys it) && prefix_free_from (replay_step f it) s'
   end.
 
 Definition hyp_stream (s : list item) : bool :=
